@@ -45,6 +45,12 @@ def items(tier):
                 for order in ("before", "after"):
                     out.append((rule, kind, suffixes, order, n))
                     n += 1
+    # the same one level down: the module in which the names are invented is not the top of the elaboration
+    for it in list(out):
+        rule, kind = it[0], it[1]
+        if kind != "port" and rule != "bundle_port" and len(it[2]) <= 2 and it[3] == "before":
+            out.append((rule, kind, it[2], it[3], n, None, "deep"))
+            n += 1
     # at the length limit: the generated name is MAXLEN - room characters long and the designer owns every candidate up to
     # the limit (or all but the longest)
     for rule in RULES:
@@ -74,7 +80,8 @@ def design(desc):
     rule, kind, suffixes, order, n = desc[:5]
     base, gw = RULES[rule]
     stretch = None
-    if len(desc) > 5:
+    deep = len(desc) > 6 and desc[6] == "deep"
+    if len(desc) > 5 and desc[5] is not None:
         old = TRIG_OBJ[rule]
         stretch = (old, old + "w" * (MAXLEN - desc[5] - len(base)))
         base = stretch[1] + base[len(old):]
@@ -137,4 +144,7 @@ def design(desc):
             adv += [("inst", f"zz{k}", ("mod", "Inner"), [("a", nc(f"adv{k}", nm)), ("b", sig("v"))])]
     decls = (adv + trig) if order == "before" else (trig + adv)
     mods["Top"] = {"name": "Top", "style": ["proc", "class"][n % 2], "decls": decls}
+    if deep:
+        mods["Outer"] = {"name": "Outer", "style": "proc", "decls": [("sig", "os", 1), probe("p_os", "os", 1, 40), ("inst", "t", ("mod", "Top"), [])]}
+        return f"F8/{rule}/{kind}/deep", {"bundles": BUND, "exts": exts, "modules": mods, "top": "Outer"}
     return f"F8/{rule}/{kind}" + ("/limit" if stretch else ""), {"bundles": BUND, "exts": exts, "modules": mods, "top": "Top"}
